@@ -45,6 +45,7 @@ TAMPERS_IN = [
     "input-legacy-p2sh-amount-via-witness-utxo", "input-foreign-redeem-script-with-witness-utxo",
     "later-input-foreign-key-under-known-path", "in-place-prev-tx-amount",
     "input-p2wsh-foreign-witness-script-with-nonwitness-utxo", "input-both-utxo-forms-amount-mismatch",
+    "input-wallet-script-in-unused-slot", "derivations-under-another-account-prefix",
 ]
 
 GATES = {
@@ -439,6 +440,31 @@ def tampers(ctx, rng, raw, signed_raw, wallet, truth, change_pos, paths=None, pr
             both = [(b"\x00", prev_raws[k_in]), (b"\x01", tc.txout_bytes(lied))]
             mm["ins"][k_in] = (both if order == "witness-utxo-last" else both[::-1]) + rest
             yield "input-both-utxo-forms-amount-mismatch", "must-raise", rp.encode(mm)
+    # the wallet's script attached under the OTHER script key while the UTXO pays somewhere else: nothing compares a
+    # script that sits in a slot the spent output's type does not use
+    if kind == "p2wsh":
+        mm = with_tx(maps, model)
+        new = []
+        for k, v in imap:
+            if k == b"\x01":
+                v = v[:8] + b"\x22\x00\x20" + rng.randbytes(32)  # same amount, foreign P2WSH
+            elif k == b"\x05":
+                k = b"\x04"
+            new.append((k, v))
+        mm["ins"][k_in] = new
+        yield "input-wallet-script-in-unused-slot", "must-raise", rp.encode(mm)
+    else:
+        prev_raw = [v for k, v in imap if k == b"\x00"][0]
+        prev, _ = tc.decode(prev_raw)
+        vout = model["ins"][k_in]["vout"]
+        for foreign_spk in (b"\xa9\x14" + rng.randbytes(20) + b"\x87", b"\x51\x20" + ec.b32(ec.mul(rng.randrange(1, ec.N))[0]), b"\x51", b"\x76\xa9\x14" + rng.randbytes(20) + b"\x88\xac"):
+            p2 = dict(prev, outs=[dict(o) for o in prev["outs"]])
+            p2["outs"][vout]["script"] = foreign_spk
+            mo = copy_model(model)
+            mo["ins"][k_in]["txid"] = tc.txid(p2)
+            mm = with_tx(maps, mo)
+            mm["ins"][k_in] = [((k, tc.encode(p2)) if k == b"\x00" else ((b"\x05", v) if k == b"\x04" else (k, v))) for k, v in imap]
+            yield "input-wallet-script-in-unused-slot", "must-raise", rp.encode(mm)
     # foreign script on the input
     other = truth.script([ec.sec(ec.mul(rng.randrange(1, ec.N))) for _ in range(truth.n)])
     mm = with_tx(maps, model)
@@ -452,6 +478,18 @@ def tampers(ctx, rng, raw, signed_raw, wallet, truth, change_pos, paths=None, pr
         v2 = v[:-4] + ((int.from_bytes(v[-4:], "little") + 1) % 2**31).to_bytes(4, "little") if name.endswith("path") else rng.randbytes(4) + v[4:]
         mm["ins"][k_in][j] = (k, v2)
         yield name, "must-raise", rp.encode(mm)
+    # every derivation record (inputs and change) states another account prefix than the global xpub records do - same
+    # depth, same tail: the keys are NOT at the stated paths (the xpubs' own records say where they sit)
+    nacc = len(truth.account_path)
+    fake_prefix = b"".join(((2**31) + x).to_bytes(4, "little") for x in (99, 7, 7, 7, 7, 7)[:nacc])
+
+    def reprefix(entries, tag):
+        return [((k, v[:4] + fake_prefix + v[4 + 4 * nacc:]) if k[:1] == tag and len(v) >= 4 + 4 * nacc else (k, v)) for k, v in entries]
+
+    mm = with_tx(maps, model)
+    mm["ins"] = [reprefix(x, b"\x06") for x in mm["ins"]]
+    mm["outs"] = [reprefix(x, b"\x02") for x in mm["outs"]]
+    yield "derivations-under-another-account-prefix", "must-raise", rp.encode(mm)
     # one global xpub replaced by an attacker key (fingerprint/path kept)
     mm = with_tx(maps, model)
     gx = [j for j, (k, _) in enumerate(mm["global"]) if k[:1] == b"\x01"]
@@ -544,7 +582,7 @@ def one_scenario(ctx, rng, kind, m, n, network, n_in, layout, quick, shared_prev
         ctx.count("tamper:" + cls)
         if exp == "skip":
             continue
-        mode = "psbt-xpubs" if cls == "global-xpub-replaced" or rng.random() < 0.5 else "explicit"
+        mode = "psbt-xpubs" if cls in ("global-xpub-replaced", "derivations-under-another-account-prefix") or rng.random() < 0.5 else "explicit"
         bytes_ = tb
         if mode == "explicit":
             mm = rp.decode(tb)
@@ -647,7 +685,7 @@ def replay(case, ctx):
                 explicit[xfp.hex()] = HDPublicKey.parse(bip32.serialize_xpub(ver, node["depth"], node["parent_fp"], node["child_num"], c, K))
         od = lib_describe(case["raw"], w.network, explicit)
         cls = case.get("cls", "honest")
-        exp = "honest" if cls == "honest" else ("must-raise" if cls.startswith("input-") or cls == "global-xpub-replaced" else "raise-or-not-change")
+        exp = "honest" if cls == "honest" else ("must-raise" if cls.startswith("input-") or cls.startswith("derivations-") or cls == "global-xpub-replaced" else "raise-or-not-change")
         judge(ctx, cls, exp, case["raw"], w, truth, od, case.get("map"))
     else:
         one_scenario(ctx, ctx.rng("replay"), case.get("kind", "p2wsh"), case.get("m", 2), case.get("n", 3), "mainnet", 1, "with-change", True)
